@@ -130,6 +130,16 @@ class TSet(Shape):
         return "Set(%r)" % (self.key,)
 
 
+class TSmallSet(Shape):
+    """a set over a small fixed universe of python constants (e.g. the 24 Routes, or None + Routes):
+    one presence flag per candidate"""
+    def __init__(self, universe):
+        self.universe = tuple(universe)
+
+    def __repr__(self):
+        return "SmallSet(%d)" % len(self.universe)
+
+
 Byte = TInt(0, 255)
 
 
@@ -165,10 +175,14 @@ class ListV(object):
 class SeqV(object):
     """Sequence of symbolic length: z3 arrays (one per scalar leaf of the
     element shape) plus a length term."""
-    __slots__ = ("length", "elem", "arrs", "kind")
+    __slots__ = ("length", "elem", "arrs", "kind", "base")
 
-    def __init__(self, length, elem, arrs, kind="list"):
-        self.length, self.elem, self.arrs, self.kind = length, elem, arrs, kind
+    def __init__(self, length, elem, arrs, kind="list", base=0):
+        # element i lives at index base + i of the arrays (slicing only moves the base)
+        self.length, self.elem, self.arrs, self.kind, self.base = length, elem, arrs, kind, base
+
+    def retag(self, kind):
+        return SeqV(self.length, self.elem, self.arrs, kind, self.base)
 
     def __repr__(self):
         return "SeqV(len=%s,%r)" % (self.length, self.elem)
@@ -341,6 +355,8 @@ def shape_leaves(shape):
         return out
     if isinstance(shape, (TNone, TConst)):
         return []
+    if isinstance(shape, TSmallSet):
+        return [TBool() for _ in shape.universe]
     raise EngineError("element shape %r not supported in sequences/maps" % (shape,))
 
 
@@ -359,6 +375,8 @@ def build_from_leaves(shape, leaves):
         return NONE
     if isinstance(shape, TConst):
         return shape.value
+    if isinstance(shape, TSmallSet):
+        return LitSet([NONE if u is None else u for u in shape.universe], [next(leaves) for _ in shape.universe])
     raise EngineError("element shape %r not supported" % (shape,))
 
 
@@ -396,6 +414,17 @@ def flatten_value(shape, v):
         return out
     if isinstance(shape, (TNone, TConst)):
         return []
+    if isinstance(shape, TSmallSet):
+        if not isinstance(v, LitSet):
+            raise EngineError("cannot flatten %r as a small set" % (v,))
+        out = []
+        for u in shape.universe:
+            uu = NONE if u is None else u
+            cs = [to_bool_term(v.cond(i)) for i, x in enumerate(v.items) if (x is uu) or (not is_z3(x) and x is not NONE and uu is not NONE and x == uu)]
+            if any(is_z3(x) for x in v.items):
+                raise EngineError("small set with symbolic members")
+            out.append(z3.Or(*cs) if len(cs) > 1 else (cs[0] if cs else z3.BoolVal(False)))
+        return out
     raise EngineError("cannot flatten %r as %r" % (v, shape))
 
 
@@ -515,6 +544,9 @@ def fresh(shape, name):
             fields[k] = v
             facts.extend(f)
         return ObjV(shape.cls, fields), facts
+    if isinstance(shape, TSmallSet):
+        return LitSet([NONE if u is None else u for u in shape.universe],
+                      [z3.Bool(fresh_name("%s.has%d" % (name, i))) for i, _ in enumerate(shape.universe)]), []
     if isinstance(shape, TSeq):
         n = z3.Int(fresh_name(name + ".len"))
         arrs = [z3.Array(fresh_name("%s.a%d" % (name, i)), z3.IntSort(), leaf_sort(l))
@@ -522,6 +554,13 @@ def fresh(shape, name):
         facts = [n >= 0]
         if shape.maxlen is not None:
             facts.append(n <= shape.maxlen)
+        # type invariant of the elements (also instantiated at every read): quantified, with the
+        # read as trigger, so that quantified specs and quantified code facts agree on it
+        j = z3.Int(fresh_name("ti"))
+        for a, l in zip(arrs, shape_leaves(shape.elem)):
+            rf = range_facts(l, z3.Select(a, j))
+            if rf:
+                facts.append(z3.ForAll([j], z3.And(*rf), patterns=[z3.Select(a, j)]))
         return SeqV(n, shape.elem, arrs, shape.kind), facts
     if isinstance(shape, TMap):
         ks = key_sort(shape.key)
@@ -591,6 +630,8 @@ def shape_of(v):
         return TMap(v.key, v.val)
     if isinstance(v, SetV):
         return TSet(v.key)
+    if isinstance(v, LitSet) and v.conds is not None and all(not is_z3(x) for x in v.items):
+        return TSmallSet([None if x is NONE else x for x in v.items])
     if isinstance(v, StrV) or isinstance(v, str):
         return TConst(v)
     return TConst(v)
